@@ -1,4 +1,192 @@
-import PgsVerif.Model.Comment
+import PgsVerif.Proofs.Comment2
+/-!
+# C20 — comment wrapping keeps every word, marks every line, respects the width
+
+Model: `C20.lines wrap text` — `bufio.Scanner` driven by `splitComment(wrap - 3)` over the text
+as decorated runes, each token printed as `// ` + its words joined by single blanks.
+Theorems for **all** texts, **all** rune decorations (bytes, blank or not) and **all** widths
+(also ≤ 3 and negative); the only hypothesis: a blank rune occupies at least one byte.
+-/
 namespace Pgs.C20
-theorem placeholder_C20 : True := trivial
+open Pgs
+
+/-- one call of the split function on the buffered data -/
+theorem splitComment_spec (w : Int) (data : List R) (eof : Bool) :
+    let res := splitComment w data eof
+    (res.token = none → fields res.rest = fields data ∧ res.rest.length ≤ data.length ∧
+        (eof = true → fields data = [])) ∧
+    (∀ t, res.token = some t →
+        fields data = fields t ++ fields res.rest ∧ fields t ≠ [] ∧ res.rest.length < data.length ∧
+        ((∃ r ∈ t, r.sp = true) → (width t : Int) < w)) := by
+  intro res
+  have hsplit : data = data.takeWhile (·.sp) ++ data.dropWhile (·.sp) := (List.takeWhile_append_dropWhile).symm
+  have hlead : ∀ r ∈ data.takeWhile (·.sp), r.sp = true := by
+    intro r hr
+    exact List.all_eq_true.mp (List.all_takeWhile (p := (·.sp)) (l := data)) r hr
+  have hhead : ∀ x, (data.dropWhile (·.sp)).head? = some x → x.sp = false := by
+    intro x hx
+    have := List.head?_dropWhile_not (·.sp) data
+    rw [hx] at this
+    simpa using this
+  have hf : fields data = fields (data.dropWhile (·.sp)) := by
+    conv => lhs; rw [hsplit]
+    exact fields_leading_spaces _ _ hlead
+  have hlen : (data.dropWhile (·.sp)).length ≤ data.length := (List.dropWhile_sublist _).length_le
+  have spec := scanFrom_spec w eof (width (data.takeWhile (·.sp))) (data.dropWhile (·.sp)) hhead
+    (data.dropWhile (·.sp)) (width (data.takeWhile (·.sp))) [] none (by simp) (by simp [width_nil])
+    (by intro r hr; simp at hr)
+  refine ⟨?_, ?_⟩
+  · intro hn
+    obtain ⟨h1, h2⟩ := spec.none_case hn
+    have hres : res.rest = data.dropWhile (·.sp) := h1
+    refine ⟨by rw [hres, hf], by rw [hres]; exact hlen, ?_⟩
+    intro he
+    rw [hf, h2 he]; rfl
+  · intro t ht
+    obtain ⟨h1, h2, h3, h4⟩ := spec.some_case t ht
+    have h3' : res.rest.length < (data.dropWhile (·.sp)).length := h3
+    refine ⟨by rw [hf]; exact h1, h2, by omega, ?_⟩
+    intro hsp
+    have := h4 hsp
+    omega
+
+/-- what the property says about one output line -/
+def GoodLine (wrap : Int) (ws : List Bytes) : Prop :=
+  ws ≠ [] ∧ (ws.length > 1 → (lineLen ws : Int) ≤ wrap)
+
+theorem good_of_token (wrap : Int) (t : List R) (hb : ∀ r ∈ t, r.sp = true → 1 ≤ r.b.length)
+    (hne : fields t ≠ []) (hw : (∃ r ∈ t, r.sp = true) → (width t : Int) < wrap - 3) : GoodLine wrap (fields t) := by
+  refine ⟨hne, ?_⟩
+  intro hlen
+  have hsp : ∃ r ∈ t, r.sp = true := by
+    apply Classical.byContradiction
+    intro hno
+    have : ∀ r ∈ t, r.sp = false := by
+      intro r hr
+      cases h : r.sp with
+      | false => rfl
+      | true => exact absurd ⟨r, hr, h⟩ hno
+    have := fields_no_space t this
+    omega
+  have hbud := fields_budget t hb
+  have := hw hsp
+  unfold lineLen
+  omega
+
+/-- the scanner loop: every token emitted is a good line and the words are preserved -/
+theorem scanLoop_spec (wrap : Int) (text : List R) (hb : ∀ r ∈ text, r.sp = true → 1 ≤ r.b.length) :
+    ∀ (fuel : Nat) (data : List R) (eof : Bool) (acc : List (List R)),
+      (∀ r ∈ data, r ∈ text) →
+      data.length + (if eof then 1 else 2) ≤ fuel →
+      (acc.map fields).flatten ++ fields data = fields text →
+      (∀ t ∈ acc, GoodLine wrap (fields t)) →
+      let out := scanLoop (wrap - 3) fuel data eof acc
+      (out.map fields).flatten = fields text ∧ ∀ t ∈ out, GoodLine wrap (fields t) := by
+  intro fuel
+  induction fuel with
+  | zero => intro data eof acc _ hf; cases eof <;> simp at hf
+  | succ fuel ih =>
+    intro data eof acc hsub hfuel hwords hgood
+    unfold scanLoop
+    by_cases h0 : data = [] ∧ eof = false
+    · obtain ⟨rfl, rfl⟩ := h0
+      simp only [and_self, if_true]
+      exact ih [] true acc hsub (by simp at hfuel ⊢; omega) hwords hgood
+    · simp only [h0, if_false]
+      obtain ⟨hnone, hsome⟩ := splitComment_spec (wrap - 3) data eof
+      cases htok : (splitComment (wrap - 3) data eof).token with
+      | some t =>
+        obtain ⟨h1, h2, h3, h4⟩ := hsome t htok
+        simp only
+        -- runes of the token and of the rest come from the data
+        have hmem : ∀ r, r ∈ t ∨ r ∈ (splitComment (wrap - 3) data eof).rest → True := fun _ _ => trivial
+        -- sub-list facts are not needed for `rest` beyond membership in text: derive them from the
+        -- model: both are built from runes of `data`
+        have hsub_rest : ∀ r ∈ (splitComment (wrap - 3) data eof).rest, r ∈ text := by
+          intro r hr
+          exact hsub r (rest_subset (wrap - 3) data eof r hr)
+        have hsub_tok : ∀ r ∈ t, r ∈ text := by
+          intro r hr
+          exact hsub r (token_subset (wrap - 3) data eof t htok r hr)
+        apply ih _ eof (acc ++ [t]) hsub_rest
+        · cases eof <;> simp at hfuel ⊢ <;> omega
+        · simp only [List.map_append, List.map_cons, List.map_nil, List.flatten_append, List.flatten_cons,
+            List.flatten_nil, List.append_nil, List.append_assoc]
+          rw [← h1]; exact hwords
+        · intro x hx
+          rcases List.mem_append.mp hx with hx | hx
+          · exact hgood x hx
+          · simp at hx; subst hx
+            exact good_of_token wrap x (fun r hr => hb r (hsub_tok r hr)) h2 h4
+      | none =>
+        obtain ⟨h1, h2, h3⟩ := hnone htok
+        simp only
+        cases eof with
+        | true =>
+          simp only [if_true]
+          refine ⟨?_, hgood⟩
+          rw [h3 rfl] at hwords
+          simpa using hwords
+        | false =>
+          simp only [Bool.false_eq_true, if_false]
+          have hsub_rest : ∀ r ∈ (splitComment (wrap - 3) data false).rest, r ∈ text := by
+            intro r hr
+            exact hsub r (rest_subset (wrap - 3) data false r hr)
+          apply ih _ true acc hsub_rest
+          · simp at hfuel ⊢; omega
+          · rw [h1]; exact hwords
+          · exact hgood
+
+/-- **C20**: wrapping preserves all words in order; every output line carries at least one word
+    (the marker is printed in front of every token by construction of `model`); every line
+    holding more than one word fits within the requested width. -/
+theorem C20_wrap (wrap : Int) (text : List R) (hb : ∀ r ∈ text, r.sp = true → 1 ≤ r.b.length) :
+    (lines wrap text).flatten = fields text ∧
+    (∀ l ∈ lines wrap text, l ≠ []) ∧
+    (∀ l ∈ lines wrap text, l.length > 1 → (lineLen l : Int) ≤ wrap) := by
+  have := scanLoop_spec wrap text hb (text.length + 3) text false [] (fun r hr => hr) (by simp) (by simp)
+    (by intro t ht; simp at ht)
+  obtain ⟨h1, h2⟩ := this
+  unfold lines tokens
+  refine ⟨h1, ?_, ?_⟩
+  · intro l hl
+    obtain ⟨t, ht, rfl⟩ := List.mem_map.mp hl
+    exact (h2 t ht).1
+  · intro l hl hlen
+    obtain ⟨t, ht, rfl⟩ := List.mem_map.mp hl
+    exact (h2 t ht).2 hlen
+
+/-- every line of the model output carries the marker -/
+theorem C20_marker (wrap : Int) (text : List R) : ∀ l ∈ model wrap text, l.marker = true := by
+  intro l hl
+  obtain ⟨ws, _, rfl⟩ := List.mem_map.mp hl
+  rfl
+
+/-- Φ_C20 holds of the model for every text and width. -/
+theorem C20_judge (wrap : Int) (text : List R) (hb : ∀ r ∈ text, r.sp = true → 1 ≤ r.b.length) :
+    judge wrap text (model wrap text) = none := by
+  obtain ⟨h1, h2, h3⟩ := C20_wrap wrap text hb
+  unfold judge
+  have e1 : ((model wrap text).map (·.words)).flatten = fields text := by
+    simp only [model, List.map_map, Function.comp_def]; simpa using h1
+  have e2 : (model wrap text).any (fun l => !l.marker) = false := by
+    simp [model]
+  have e3 : (model wrap text).any (fun l => l.words.isEmpty) = false := by
+    simp only [model, List.any_map, List.any_eq_false]
+    intro l hl
+    simpa using h2 l hl
+  have e4 : (model wrap text).any (fun l => decide (l.words.length > 1) && decide ((lineLen l.words : Int) > wrap)) = false := by
+    simp only [model, List.any_map, List.any_eq_false]
+    intro l hl
+    by_cases hlen : l.length > 1
+    · have := h3 l hl hlen
+      simp [hlen]; omega
+    · simp [hlen]
+  simp [e1, e2, e3, e4]
+
+/-! ### non-vacuity: "aaaa bbbb" at width 9 gives two lines; a three-word text at width 20 gives multi-word lines -/
+private def asc (s : List Nat) : List R := s.map fun c => ⟨[c], c == 32 || c == 10⟩
+example : lines 9 (asc [97,97,97,97,32,98,98,98,98]) = [[[97,97,97,97]], [[98,98,98,98]]] := by decide
+example : lines 20 (asc [97,98,32,99,100,10,101]) = [[[97,98],[99,100],[101]]] := by decide
+
 end Pgs.C20
